@@ -1729,7 +1729,7 @@ def _dgram_server(cb, backend):
     from easynetwork.lowlevel.api_async.servers import datagram as D
     from easynetwork.lowlevel.api_async.transports.abc import AsyncDatagramListener
     from easynetwork.protocol import DatagramProtocol
-    from easynetwork.serializers.line import StringLineSerializer
+    StringLineSerializer = _crashing_serializer
     got = []
 
     class L(AsyncDatagramListener):
@@ -1815,7 +1815,22 @@ def _observe_udp_task():
         _probe_run(go2())
         if thrown and thrown[0] is exc:
             conv.append(k)
-    return fresh_all, conv
+    # the FIRST datagram of a handler run makes protocol.build_packet_from_datagram() crash: thrown into the handler?
+    thrown1 = []
+
+    async def cb3(ctx):
+        try:
+            yield
+        except BaseException as t:  # noqa: BLE001
+            if not isinstance(t, GeneratorExit):
+                thrown1.append(t)
+
+    async def go3():
+        srv, got = _dgram_server(cb3, _real_backend())
+        await drive(srv, got, cb3, [b"CRASH\n"])
+
+    _probe_run(go3())
+    return fresh_all, conv, bool(thrown1) and isinstance(thrown1[0], Exception)
 
 
 def _observe_dgram_initializer():
@@ -2288,6 +2303,13 @@ def _params():
         return (_classes_for_leaves(tcp_conv, classes, False, "stream receivers"),
                 _classes_for_leaves(udp_conv, classes, True, "datagram inner loop"))
 
+    # no AST reader for this one: the probe of the real datagram callback decides (unreachable -> fail closed)
+    try:
+        first_parse_protected = udp_once()[2]
+    except TranslateError:
+        raise
+    except Exception as exc:
+        raise TranslateError(f"udp_first_parse_protected: the behavioural probe cannot reach the site: {exc.__class__.__name__}: {exc}")
     tcp_wait, udp_wait = _site("tcp_wait_clauses / udp_wait_clauses", notes,
                                lambda: _tr_wait_clauses(stream_tree, dgram_tree, classes), beh_wait)
 
@@ -2339,6 +2361,7 @@ def _params():
         "Definition udp_aexit : list mcase :=\n  " + udp + ".",
         f"Definition udp_done_in_finally : bool := {_b(in_finally)}.",
         f"Definition udp_done_marks_first : bool := {_b(marks_first)}.",
+        f"Definition udp_first_parse_protected : bool := {_b(first_parse_protected)}.",
     ]
     text = "\n".join(out) + "\n"
     # numbers inside clause records are nat (cls) except the Z log codes: make log codes explicit
@@ -2508,7 +2531,17 @@ def _datagram_handler(world):
                 return
             if s.pos in (0, 5):
                 raise s.exc1()
-            req = yield
+            if s.pos == 8:
+                # the first datagram of this run makes protocol.build_packet_from_datagram() crash (not a parse error)
+                try:
+                    req = yield
+                except BaseException as thrown:
+                    if isinstance(thrown, (GeneratorExit, asyncio.CancelledError)):
+                        raise
+                    s.hooks.append(5)
+                    raise s.exc1()
+            else:
+                req = yield
             s.hooks.append(3)
             if s.pos == 7 and s.gens == 1:
                 await asyncio.sleep(0.3)           # the next datagrams of this address are queued meanwhile
@@ -2542,12 +2575,34 @@ def _datagram_handler(world):
                     if s.e1 == [0, 4]:
                         raise
                     raise s.exc1()
+            elif s.pos == 9:
+                try:
+                    req = yield
+                except BaseException as thrown:
+                    if isinstance(thrown, (GeneratorExit, asyncio.CancelledError)):
+                        raise
+                    s.hooks.append(5)
+                    raise s.exc1()
             else:
                 req = yield
             s.hooks.append(3)
             raise s.exc1()
 
     return Handler()
+
+
+def _crashing_serializer():
+    """a user serializer that does not translate every error: the datagram b"CRASH" makes deserialize() raise ValueError
+    (everything else is the stock line serializer)"""
+    from easynetwork.serializers.line import StringLineSerializer
+
+    class CrashingLineSerializer(StringLineSerializer):
+        def deserialize(self, data):
+            if bytes(data).strip() == b"CRASH":
+                raise ValueError("serializer crashed on client data")
+            return super().deserialize(data)
+
+    return CrashingLineSerializer()
 
 
 _world_seq = itertools.count()
@@ -2642,7 +2697,7 @@ class World:
         from easynetwork.serializers.line import StringLineSerializer
         if self.srv in (2, 4):
             from easynetwork.servers.async_udp import AsyncUDPNetworkServer
-            self.server = AsyncUDPNetworkServer("127.0.0.1", 0, DatagramProtocol(StringLineSerializer()),
+            self.server = AsyncUDPNetworkServer("127.0.0.1", 0, DatagramProtocol(_crashing_serializer()),
                                                 _datagram_handler(self), logger=self.logger)
         else:
             from easynetwork.servers.async_tcp import AsyncTCPNetworkServer
@@ -2838,7 +2893,10 @@ class World:
         return await self._closed(f)
 
     async def _udp_script(self, f, pos):
-        await self._send(f, b"x")
+        await self._send(f, b"CRASH" if pos == 8 else b"x")
+        if pos == 9:
+            await self._recv(f)
+            await self._send(f, b"CRASH")
         if pos in (5, 6, 7):
             await self._send(f, b"y")              # a burst: more datagrams of the same address right behind the first one
             await self._send(f, b"w")
@@ -2938,9 +2996,9 @@ def run_impl(inp):
 DELAYS = [None, 0, 0.5, -1, float('inf'), float('nan'), 'abc', 10 ** 400]      # codes 0..7: positions 20 + code
 DELAY_WAITS = {0, 4}             # delays with which the receiver simply waits for the next request
 TCP_POSITIONS = list(range(12)) + [20 + d for d in range(8)]
-UDP_POSITIONS = list(range(8)) + [20 + d for d in range(8)]
+UDP_POSITIONS = list(range(10)) + [20 + d for d in range(8)]
 HARD_TCP_POS = {5, 6, 7, 8, 9, 10, 11} | {20 + d for d in range(8)}
-HARD_UDP_POS = {2, 3, 4, 5, 6, 7} | {20 + d for d in range(8)}
+HARD_UDP_POS = {2, 3, 4, 5, 6, 7, 8, 9} | {20 + d for d in range(8)}
 
 
 def _naked():
